@@ -208,6 +208,19 @@ func PathsJail(args []string) {
 			// every third case the sender also lists a file named like the resume-metadata directory, so that the
 			// directory cannot be created below the output directory
 			blockMeta := r.Resume && n%3 == 0
+			if blockMeta && n%2 == 1 {
+				// ... or the place of that directory is taken already: a regular file of that name which the user has
+				// in the output directory (the receiver can then keep no resume metadata there - it must not keep it elsewhere)
+				blockMeta = false
+				for _, d := range []string{out, filepath.Join(out, m.Root)} {
+					if !filepath.IsLocal(m.Root) && d != out {
+						continue
+					}
+					os.MkdirAll(d, 0755)
+					os.WriteFile(filepath.Join(d, ".thruflux_resumedata"), []byte("the user's own file"), 0644)
+				}
+				before = snapshotAround(caseDir, out)
+			}
 			rerr, hung := runHostile(m, fileItem, beginPath, blockMeta, out, r.NoRootDir, r.Resume)
 			after := snapshotAround(caseDir, out)
 			diffs := diffSnap(before, after)
